@@ -75,7 +75,7 @@ PROPERTIES = {
                  "the wrap, keeps only known out-of-order TSNs, and leaves every inbound stream well formed (the expected "
                  "stream sequence number of a named stream stays 16-bit: 65535 + 1 wraps to 0); raises nothing. "
                  "Reduced: fragments of the message still in the outbound queue (F-15), which messages the receiver delivers "
-                 "after a FORWARD-TSN, expiry in "
+                 "after a FORWARD-TSN, the expiry time itself in "
                  "_data_channel_flush, flight-size accounting and every schedule-level statement are not decided.",
         "note": "Only the listed functions are decided; nothing is claimed about other channels being undisturbed across a "
                 "whole exchange.",
@@ -195,26 +195,31 @@ PROPERTIES = {
                  "byte lengths, for any Unicode label and protocol. _data_channel_receive, for a well-formed DATA_CHANNEL_OPEN on "
                  "an unused stream, registers a new channel with that id whose label, protocol, ordering and reliability settings "
                  "are exactly the ones on the wire, in state 'open', whose first event is 'open'; RTCDataChannel.__init__ (remote "
-                 "open) starts 'connecting' with zero amounts and no event. Stream reset: _transmit_reconfig makes a request from "
+                 "open) starts 'connecting' with zero amounts and no event. _data_channel_flush keeps every registered channel "
+                 "registered, keeps the table 'id -> the channel carrying that id', numbers channels without an id with ids of "
+                 "this end's parity that are not in use, only appends to event logs, and hands every message to the SCTP layer "
+                 "on the channel's own stream - DCEP messages reliable and ordered, user messages with the channel's ordering and "
+                 "retransmission limit and with a lifetime exactly when the channel has one (obligations at the call of _send). "
+                 "Stream reset: _transmit_reconfig makes a request from "
                  "the first 135 queued streams exactly when none is outstanding; _data_channel_closed unregisters the id and "
                  "closes the channel; _receive_reconfig_param, for a response that matches the outstanding request, closes and "
                  "unregisters that request's streams, retires the request, and - progress - leaves a new outstanding request "
                  "covering the streams still queued, so a close() issued while an earlier reset is in flight is not stranded. "
-                 "Reduced: id parity/reuse in _data_channel_flush, ACK handling, forward-only state at the call sites, the "
-                 "accounting across send/flush and close() end to end over both peers are not under contract.",
+                 "Reduced: id reuse after close, ACK handling, forward-only state at the call sites, the accounting across "
+                 "send/flush, and close() end to end over both peers are not under contract.",
         "note": "emit() is modelled as appending the event name to a ghost list; the event-log postconditions assume listeners "
                 "do not re-enter, while the at_emit/after_emit obligations are exactly what makes re-entry harmless. "
-                "_data_channel_flush and _send_reconfig_param are assumed contracts (trusted; listed in the evidence): flush keeps "
-                "registered channels, ids once set and only appends events; sending a RE-CONFIG chunk changes no reset "
-                "bookkeeping. _receive_reconfig_param assumes (precondition, not proved at the callers) that the streams of the "
+                "_send and _send_reconfig_param are assumed contracts (trusted; listed in the evidence): handing a message or a "
+                "RE-CONFIG chunk to the SCTP layer changes no data-channel or reset bookkeeping and raises nothing. Termination "
+                "of the two loops of _data_channel_flush is not proved (decreases='unproved'). _receive_reconfig_param assumes (precondition, not proved at the callers) that the streams of the "
                 "outstanding request are registered channels; a stream listed twice makes it raise KeyError, which the contract "
                 "allows. F-16 (DCEP label length counted in characters) was found by _data_channel_open's layout clause and "
                 "fixed. str.encode/bytes.decode('utf8') are axiomatised total/partial functions (A-EXT).",
         "design_ref": "DESIGN.md 4.13, 9",
         "trusted_base": COMMON + ["pyee emit(): listeners do not re-enter (event-log clauses only)",
-                                  "assumed contracts: RTCSctpTransport._data_channel_flush, RTCSctpTransport._send_reconfig_param"],
-        "not_decided": ["id parity and reuse (_data_channel_flush)", "DATA_CHANNEL_ACK handling and forward-only readyState at the "
-                        "call sites (ACK after close)", "bufferedAmount accounting in _data_channel_send/_data_channel_flush",
+                                  "assumed contracts: RTCSctpTransport._send, RTCSctpTransport._send_reconfig_param"],
+        "not_decided": ["id reuse after close; termination of _data_channel_flush's loops", "DATA_CHANNEL_ACK handling and forward-only readyState at the "
+                        "call sites (ACK after close)", "bufferedAmount accounting across _data_channel_send and _data_channel_flush",
                         "incoming stream reset (StreamResetOutgoingParam branch) and _data_channel_close",
                         "close() end to end across both peers"],
     },
